@@ -260,6 +260,43 @@ def run_column(values, ctx, only=None):
     batch.run(rec, {'family': 'column', 'values': list(values)})
 
 
+# ---------------------------------------------------------------- family A2
+# fractional operands and cells, the operands 59/60, and columns that hold a
+# number next to the text spelling it (judged for ordering criteria with a
+# numeric operand only: a text cell is not of the operand's type)
+FRAC_ALPHA = (2.5, 0.1, 59, 60, 59.5, 'apple')
+FRAC_CRITERIA = tuple(op + o for op in OPS
+                      for o in ('2.5', '0.25', '59', '60', '59.5', '-0.5')) \
+    + (2.5, 59.5, 60, '2.5', '60')
+DIGIT_ALPHA = (5, '5', 0, '0', 'apple')
+DIGIT_CRITERIA = tuple(op + o for op in ('<', '<=', '>', '>=')
+                       for o in ('3', '5', '0', '-1', '4.5'))
+
+
+def run_column2(name, values, ctx, only=None):
+    rec = Rec(ctx, only)
+    n = len(values)
+    cells = column_cells(values, 'A')
+    base = 'C15/%s/%s' % (name, colkey(values))
+    batch = Batch(cells)
+    crits = FRAC_CRITERIA if name == 'column-frac' else DIGIT_CRITERIA
+    for crit in crits:
+        try:
+            want = ref.countif(values, crit)
+        except ref.Unjudged as u:
+            rec.skip('%s/COUNTIF/crit=%s' % (base, vkey(crit)), u.args[0])
+            continue
+        tags = {'family:' + name}
+        if isinstance(crit, str) and crit.startswith(ref.PREFIXES):
+            tags.add('crit:prefixed')
+        for fn, form in (('COUNTIF', '=COUNTIF(%s,%s)'),
+                         ('COUNTIFS', '=COUNTIFS(%s,%s)')):
+            batch.add('%s/%s/crit=%s' % (base, fn, vkey(crit)),
+                      form % (rng('A', n), lit(crit)), tags | {'fn:' + fn},
+                      want, n >= 2)
+    batch.run(rec, {'family': name, 'values': list(values)})
+
+
 # ---------------------------------------------------------------- family B
 def run_pair(a, b, mode, ctx, only=None):
     """COUNTIFS / SUMIFS over two equally long columns A and B.
@@ -440,6 +477,13 @@ def plan(tier):
         for lo in range(0, total, 12):
             shards.append({'fam': 'column', 'n': n, 'lo': lo,
                            'hi': min(total, lo + 12)})
+    for name, alpha in (('column-frac', FRAC_ALPHA),
+                        ('column-digit', DIGIT_ALPHA)):
+        for n in range(1, (4 if thorough else 3) + 1):
+            total = len(alpha) ** n
+            for lo in range(0, total, 40):
+                shards.append({'fam': name, 'n': n, 'lo': lo,
+                               'hi': min(total, lo + 40)})
     pair_plan = ([(2, 'full'), (3, 'full'), (4, 'core')] if thorough
                  else [(2, 'full'), (3, 'core')])
     for n, mode in pair_plan:
@@ -470,6 +514,14 @@ def run_shard(shard, ctx):
             ctx.sample({'column': list(word(ALPHA6, shard['n'],
                                             shard['hi'] - 1)),
                         'formula': '=COUNTIF(A1:A%d,">=-3")' % shard['n']})
+    elif fam in ('column-frac', 'column-digit'):
+        alpha = FRAC_ALPHA if fam == 'column-frac' else DIGIT_ALPHA
+        for idx in range(shard['lo'], shard['hi']):
+            run_column2(fam, word(alpha, shard['n'], idx), ctx)
+        if shard['lo'] == 0:
+            ctx.sample({'column': list(word(alpha, shard['n'],
+                                            shard['hi'] - 1)),
+                        'formula': '=COUNTIF(A1:A%d,">2.5")' % shard['n']})
     elif fam == 'pair':
         n = shard['n']
         for idx in range(shard['lo'], shard['hi']):
@@ -496,6 +548,8 @@ def replay(inputs, ctx):
     only = inputs['key']
     if fam == 'column':
         run_column(tuple(inputs['values']), ctx, only)
+    elif fam in ('column-frac', 'column-digit'):
+        run_column2(fam, tuple(inputs['values']), ctx, only)
     elif fam == 'pair':
         run_pair(tuple(inputs['a']), tuple(inputs['b']), inputs['mode'], ctx,
                  only)
